@@ -33,7 +33,7 @@ RULE = (
     "of length <= 4 (quick) / 5 (thorough) over 8 outcome kinds. Distinct by (outcome-kind sequence prefix, settings class, result class)."
 )
 RULE += " " + (
-    "Also: long relative names whose search-list combinations exceed 255 octets; the shipped Do53Nameserver's query / async_query compared call by call through recording transport functions."
+    "Also: long relative names whose search-list combinations exceed 255 octets; the shipped Do53Nameserver's query / async_query compared call by call through recording transport functions. resolve_name with a relative name and a search list."
 )
 ASSUMPTIONS = [
     "reference decision procedure B4 in this file (DESIGN.md Appendix B4)",
